@@ -366,10 +366,21 @@ def r10_no_unsaved_memory(ctx, rule):
         ctx.ok(rule, PG + 'omen_generate_guesses', 'the Markov emission loop keeps no memory of its own between guesses')
 
 
+def _shared_rule(mod, name, **kw):
+    def run(ctx, rule):
+        import importlib
+        return getattr(importlib.import_module('sa.props.' + mod), name)(ctx, rule, **kw)
+    return run
+
+
 def rules(tier):
     return [('C15.R1', r1_one_shot_key), ('C15.R2', r2_no_generated_unemitted), ('C15.R3', r3_pickle_layout),
             ('C15.R4', r4_omen_exit_writers), ('C15.R5', lambda c, r: c08.r5_sav_keys(c, r, sections=('guessing_info',), floor=3)),
-            ('C15.R6', r6_omen_call_sites), ('C15.R7', _model_immutable), ('C15.R8', r8_model_order), ('C15.R9', r9_session_file_names), ('C15.R10', r10_no_unsaved_memory), ('C15.R11', c08.r20_position_verbatim)]
+            ('C15.R6', r6_omen_call_sites), ('C15.R7', _model_immutable), ('C15.R8', r8_model_order), ('C15.R9', r9_session_file_names), ('C15.R10', r10_no_unsaved_memory), ('C15.R11', c08.r20_position_verbatim),
+            # C15-ca: load_save drops the OMEN marker when <session>.omn is not found relative to the working directory
+            ('C15.R12', _shared_rule('c08', 'r11_restore_is_verbatim')),
+            # C15-cb: memo entry filed under the level reached instead of the level asked for
+            ('C15.R13', _shared_rule('c10', 'r2_memo_key'))]
 
 
 META = {
